@@ -55,7 +55,7 @@ pub trait OneshotApi: 'static {
 
 pub struct BorrowedOne<M>(std::marker::PhantomData<M>);
 impl<M: RawMutex + 'static> OneshotApi for BorrowedOne<M> {
-    type Root = Box<GenericOneshotChannel<M, Val>>;
+    type Root = Owned<GenericOneshotChannel<M, Val>>;
     type Tx = &'static GenericOneshotChannel<M, Val>;
     type Rx = &'static GenericOneshotChannel<M, Val>;
     type Obs = &'static GenericOneshotChannel<M, Val>;
@@ -64,8 +64,7 @@ impl<M: RawMutex + 'static> OneshotApi for BorrowedOne<M> {
     const BROADCAST: bool = false;
     const RX_CLONE: bool = false;
     fn create() -> (Self::Root, Self::Tx, Self::Rx, Self::Obs) {
-        let b = Box::new(GenericOneshotChannel::<M, Val>::new());
-        let r: &'static GenericOneshotChannel<M, Val> = unsafe { &*(&*b as *const _) };
+        let (b, r) = Owned::new(GenericOneshotChannel::<M, Val>::new());
         (b, r, r, r)
     }
     fn clone_rx(_r: &Self::Rx) -> Option<Self::Rx> {
@@ -87,7 +86,7 @@ impl<M: RawMutex + 'static> OneshotApi for BorrowedOne<M> {
 
 pub struct BorrowedBroadcast<M>(std::marker::PhantomData<M>);
 impl<M: RawMutex + 'static> OneshotApi for BorrowedBroadcast<M> {
-    type Root = Box<GenericOneshotBroadcastChannel<M, Val>>;
+    type Root = Owned<GenericOneshotBroadcastChannel<M, Val>>;
     type Tx = &'static GenericOneshotBroadcastChannel<M, Val>;
     type Rx = &'static GenericOneshotBroadcastChannel<M, Val>;
     type Obs = &'static GenericOneshotBroadcastChannel<M, Val>;
@@ -96,8 +95,7 @@ impl<M: RawMutex + 'static> OneshotApi for BorrowedBroadcast<M> {
     const BROADCAST: bool = true;
     const RX_CLONE: bool = false;
     fn create() -> (Self::Root, Self::Tx, Self::Rx, Self::Obs) {
-        let b = Box::new(GenericOneshotBroadcastChannel::<M, Val>::new());
-        let r: &'static GenericOneshotBroadcastChannel<M, Val> = unsafe { &*(&*b as *const _) };
+        let (b, r) = Owned::new(GenericOneshotBroadcastChannel::<M, Val>::new());
         (b, r, r, r)
     }
     fn clone_rx(_r: &Self::Rx) -> Option<Self::Rx> {
@@ -597,7 +595,10 @@ impl<A: OneshotApi> World for OneshotWorld<A> {
                         self.tx = None;
                         self.rxs[0] = None;
                     }
-                    let obs = self.obs.take();
+                    // borrowed flavours: `obs` is a plain reference into the root; it must not be
+                    // alive (not even captured) while the root is freed
+                    let obs = if A::SHARED { self.obs.take() } else { None };
+                    self.obs = None;
                     let root = self.root.take();
                     env.call("drop channel", || {
                         drop(obs);
